@@ -173,6 +173,13 @@ pub fn guarded<T>(f: impl FnOnce() -> T) -> Result<T, String> {
     }
 }
 
+struct FinishGuard<'a>(&'a AtomicU64);
+impl Drop for FinishGuard<'_> {
+    fn drop(&mut self) {
+        self.0.fetch_add(1, Ordering::Relaxed);
+    }
+}
+
 struct Found<S> {
     index: u64,
     run_seed: u64,
@@ -290,9 +297,34 @@ pub fn run_check<C: Check>(c: &C, tier: Tier, dump_traces: Option<&str>, runs_ov
         traces: vec![],
     });
 
+    // runs in flight, for the watchdog: a run that does not come back (a library call that never returns —
+    // every clock and device of the simulated world is driven from inside such calls) cannot be stopped
+    // from outside, so it is reported as a violation with its scenario as the replay file and the
+    // process ends there
+    let inflight: Mutex<BTreeMap<u64, (Instant, u64, C::Scn)>> = Mutex::new(BTreeMap::new());
+    let finished = AtomicU64::new(0);
+    let hang_s: f64 = std::env::var("VERIF_HANG_S").ok().and_then(|s| s.parse().ok()).unwrap_or(240.0);
+
     std::thread::scope(|s| {
+        s.spawn(|| {
+            while finished.load(Ordering::Relaxed) < nj as u64 {
+                std::thread::sleep(std::time::Duration::from_millis(500));
+                let stuck = inflight.lock().unwrap().iter().find(|(_, (t, _, _))| t.elapsed().as_secs_f64() > hang_s).map(|(i, (_, rs, scn))| (*i, *rs, scn.clone()));
+                if let Some((i, run_seed, scn)) = stuck {
+                    let v = Violation { class: "run-does-not-terminate".into(), step: 0, detail: format!("run #{i} has been executing for more than {hang_s} s of wall clock (a run takes milliseconds): a call into the library does not return") };
+                    let f = Found { index: i, run_seed, scn: scn.clone(), v: v.clone() };
+                    let path = write_replay(c, seed, &f, &scn, &v, 0, "");
+                    println!("violation class={} run={} run_seed={:#x} step=0 minimise_execs=0 detail={}", v.class, i, run_seed, v.detail);
+                    println!("VIOLATION property={id} replay={path}");
+                    use std::io::Write;
+                    let _ = std::io::stdout().flush();
+                    std::process::exit(1);
+                }
+            }
+        });
         for _ in 0..nj {
             s.spawn(|| {
+                let _done = FinishGuard(&finished);
                 let mut local_evals = 0u64;
                 loop {
                     if stop.load(Ordering::Relaxed) {
@@ -312,7 +344,9 @@ pub fn run_check<C: Check>(c: &C, tier: Tier, dump_traces: Option<&str>, runs_ov
                     let run_seed = mix(seed, id, i);
                     let mut rng = Rng::new(run_seed);
                     let scn = c.generate(&mut rng, tier, i);
+                    inflight.lock().unwrap().insert(i, (Instant::now(), run_seed, scn.clone()));
                     let o = exec_isolated(c, &scn);
+                    inflight.lock().unwrap().remove(&i);
                     let mut a = agg.lock().unwrap();
                     a.evals += 1;
                     a.sim_time += o.sim_time;
@@ -493,7 +527,26 @@ pub fn replay<C: Check>(c: &C, path: &str) -> i32 {
         eprintln!("harness error: replay file is for {} not {}", doc.property, c.id());
         return 2;
     }
-    let o = exec_isolated(c, &doc.scenario);
+    if doc.class == "run-does-not-terminate" {
+        println!("replay: executing a scenario recorded as non-terminating; VERIF_HANG_S (default 240) bounds the wait");
+    }
+    let hang_s: f64 = std::env::var("VERIF_HANG_S").ok().and_then(|s| s.parse().ok()).unwrap_or(240.0);
+    let o = std::thread::scope(|s| {
+        let (tx, rx) = std::sync::mpsc::channel();
+        s.spawn(move || {
+            let _ = tx.send(exec_isolated(c, &doc.scenario));
+        });
+        match rx.recv_timeout(std::time::Duration::from_secs_f64(hang_s)) {
+            Ok(o) => o,
+            Err(_) => {
+                println!("replay: violation class=run-does-not-terminate step=0 detail=the run did not come back within {hang_s} s trace_hash=0000000000000000 (recorded class={} trace_hash={})", doc.class, doc.trace_hash);
+                println!("VIOLATION property={} replay={path}", c.id());
+                use std::io::Write;
+                let _ = std::io::stdout().flush();
+                std::process::exit(1);
+            }
+        }
+    });
     let th = format!("{:016x}", o.trace);
     match o.violation {
         Some(v) => {
